@@ -619,6 +619,10 @@ func (handler *Handler) processBinaryDataRow(ctx context.Context, rowData []byte
 	// 1 - packet header
 	// 7 + 2 offset from docs
 	pos = 1 + ((len(fields) + 7 + 2) >> 3)
+	if len(rowData) < pos {
+		// the row ends inside its NULL bitmap
+		return nil, base_mysql.ErrMalformPacket
+	}
 	nullBitmap := rowData[1:pos]
 	output = append(output, rowData[:pos]...)
 
@@ -669,24 +673,27 @@ func (handler *Handler) extractData(pos int, rowData []byte, field *ColumnDescri
 		return []byte{}, 0, nil
 
 	case base_mysql.TypeTiny:
-		return rowData[pos : pos+1], 1, nil
+		return fixedWidthValue(rowData, pos, 1)
 
 	case base_mysql.TypeShort, base_mysql.TypeYear:
-		return rowData[pos : pos+2], 2, nil
+		return fixedWidthValue(rowData, pos, 2)
 
 	case base_mysql.TypeInt24, base_mysql.TypeLong:
-		return rowData[pos : pos+4], 4, nil
+		return fixedWidthValue(rowData, pos, 4)
 
 	case base_mysql.TypeLongLong:
-		return rowData[pos : pos+8], 8, nil
+		return fixedWidthValue(rowData, pos, 8)
 
 	case base_mysql.TypeFloat:
-		return rowData[pos : pos+4], 4, nil
+		return fixedWidthValue(rowData, pos, 4)
 
 	case base_mysql.TypeDouble:
-		return rowData[pos : pos+8], 8, nil
+		return fixedWidthValue(rowData, pos, 8)
 
 	case base_mysql.TypeDecimal, base_mysql.TypeNewDecimal, base_mysql.TypeBit, base_mysql.TypeEnum, base_mysql.TypeSet, base_mysql.TypeGeometry, base_mysql.TypeDate, base_mysql.TypeNewDate, base_mysql.TypeTimestamp, base_mysql.TypeDatetime, base_mysql.TypeTime, base_mysql.TypeVarchar, base_mysql.TypeTinyBlob, base_mysql.TypeMediumBlob, base_mysql.TypeLongBlob, base_mysql.TypeBlob, base_mysql.TypeVarString, base_mysql.TypeString:
+		if pos < 0 || pos > len(rowData) {
+			return nil, 0, base_mysql.ErrMalformPacket
+		}
 		value, n, err := base_mysql.LengthEncodedString(rowData[pos:])
 		if err != nil {
 			handler.logger.WithError(err).WithField(logging.FieldKeyEventCode, logging.EventCodeErrorDecryptorCantDecryptBinary).
@@ -697,6 +704,14 @@ func (handler *Handler) extractData(pos int, rowData []byte, field *ColumnDescri
 	default:
 		return nil, 0, errors.New("found unknown FieldType in MySQL response packet")
 	}
+}
+
+// fixedWidthValue returns the value of a fixed-width column of a binary row: the row has to hold all of its bytes
+func fixedWidthValue(rowData []byte, pos, width int) ([]byte, int, error) {
+	if pos < 0 || width < 0 || len(rowData)-pos < width {
+		return nil, 0, base_mysql.ErrMalformPacket
+	}
+	return rowData[pos : pos+width], width, nil
 }
 
 func (handler *Handler) expectEOFOnColumnDefinition() bool {
